@@ -347,6 +347,11 @@ def _alias_history(case, el, net, keep, out):
     # edge list -> network: the caller changes its edge list afterwards; the network it got must stay what it was
     _apply_el_ops(el, al["el_ops"])
     res["net_after_input_changed"] = _observe(el, net)
+    # ... and converting the SAME edge-list object again gives the network of its CURRENT contents (same length or not)
+    res["el_now"] = _cols(el)["cols"]
+    with oracles.forbid_random():
+        net4 = EdgeListToNetwork.convert(el)
+    res["el_again"] = _observe(el, net4)
     back = keep.get("back")
     if back is not None:
         # network -> edge list: the network changes afterwards; the edge list returned BEFORE must stay what it was ...
@@ -362,7 +367,40 @@ def _alias_history(case, el, net, keep, out):
             res["net_of_back"] = _observe(back, net3)
         except Exception as e:  # noqa: BLE001
             res["net_of_back"] = {"exc": type(e).__name__}
+        # ... and the reverse conversion called AGAIN on the same, changed Network object describes what it holds NOW
+        res["reconverted"] = _observe(None, net)
     out["alias"] = res
+
+
+def _case_of_net(netobs):
+    """the edge list a network observation describes (None unless vertices 0..n-1 all annotated, all edges attributed)"""
+    nodes, edges = netobs
+    if [v for v, _ in nodes] != list(range(len(nodes))) or any(not a for _, a in nodes):
+        return None
+    if any(len(a) != 2 or a[0] < 0 or a[1] < 0 for _, a in edges):
+        return None
+    return {"jds": [a[0] for _, a in nodes], "edges": [e for e, _ in edges], "names": [a[0] for _, a in edges],
+            "ids": [a[1] for _, a in edges]}
+
+
+def _el_now(al):
+    c = al["el_now"]
+    return {"jds": c[0], "edges": c[1], "names": c[2], "ids": c[3]}
+
+
+def _alias_model_cases(case, impl_obs):
+    """[(key, edge list to run the model on)] for the later conversions of an alias history"""
+    out = []
+    if "alias" not in case or is_exc(impl_obs):
+        return out
+    al = impl_obs.get("alias", {})
+    if "el_again" in al:
+        out.append(("el_again", _el_now(al)))
+    if "net_of_back" in al:
+        out.append(("net_of_back", _snapshot_case(impl_obs)))
+    if "reconverted" in al and _case_of_net(al["reconverted"]["net"]) is not None:
+        out.append(("reconverted", _case_of_net(al["reconverted"]["net"])))
+    return out
 
 
 def impl(case):
@@ -411,8 +449,7 @@ def model_calls(case, impl_obs):
     calls = [("c04_run", _t(case))]
     if "second" in case:
         calls.append(("c04_run", _t(_second_case(case))))
-    if "alias" in case and not is_exc(impl_obs) and "net_of_back" in impl_obs.get("alias", {}):
-        calls.append(("c04_run", _t(_snapshot_case(impl_obs))))
+    calls += [("c04_run", _t(c)) for _, c in _alias_model_cases(case, impl_obs)]
     return calls
 
 
@@ -432,8 +469,8 @@ def model_obs(case, raws):
     m = _mobs(raws[0])
     if "second" in case:
         m["second"] = _mobs(raws[1])
-    elif len(raws) > 1:
-        m["net_of_back"] = _mobs(raws[1])
+    else:
+        m["later"] = [_mobs(r) for r in raws[1:]]
     return m
 
 
@@ -459,12 +496,14 @@ def compare(case, impl_obs, model):
             if b.get("ok") != model["back"].get("ok") or not b.get("parallel"):
                 return ("edge list returned by the reverse conversion, observed again after the network was changed in "
                         f"place: {b} model {model['back']}")
-        if "net_of_back" in al:
-            if "exc" in al["net_of_back"]:
-                return f"converting the previously returned edge list raised {al['net_of_back']['exc']}"
-            d = _cmp1(al["net_of_back"], model["net_of_back"])
+        if "exc" in al.get("net_of_back", {}):
+            return f"converting the previously returned edge list raised {al['net_of_back']['exc']}"
+        for (key, _), m in zip(_alias_model_cases(case, impl_obs), model["later"]):
+            d = _cmp1(al[key], m)
             if d:
-                return "network of the previously returned edge list (after the first network was changed): " + d
+                return {"el_again": "conversion of the same edge-list object after it was changed in place: ",
+                        "net_of_back": "network of the previously returned edge list (after the first network was changed): ",
+                        "reconverted": "reverse conversion called again on the same Network object after it was changed: "}[key] + d
     return None
 
 
@@ -507,6 +546,13 @@ def _alias_checks(case, impl_obs):
     return out
 
 
+def _reconverted_check(impl_obs):
+    """the changed network, converted again, judged against the edge list that network describes NOW"""
+    al = impl_obs["alias"]
+    c = _case_of_net(al["reconverted"]["net"]) if "reconverted" in al else None
+    return None if c is None else (c, al["reconverted"])
+
+
 def check_calls(case, impl_obs):
     if is_exc(impl_obs):
         return []
@@ -515,6 +561,10 @@ def check_calls(case, impl_obs):
         calls.append(_chk1(_second_case(case), impl_obs["second"]))
     if "alias" in case:
         calls += [_chk1(case, o) for _, o in _alias_checks(case, impl_obs)]
+        calls.append(_chk1(_el_now(impl_obs["alias"]), impl_obs["alias"]["el_again"]))
+        rc = _reconverted_check(impl_obs)
+        if rc:
+            calls.append(_chk1(*rc))
     return calls
 
 
@@ -547,6 +597,18 @@ def check_verdict(case, impl_obs, raws):
         al = impl_obs["alias"]
         for (what, o), raw in zip(_alias_checks(case, impl_obs), raws[1:]):
             v = _verdict1(o, raw, what)
+            if v:
+                return v
+        n_al = len(_alias_checks(case, impl_obs))
+        v = _verdict1(al["el_again"], raws[1 + n_al], "EdgeListToNetwork.convert of the SAME edge-list object after the caller "
+                      "changed it in place (rows / annotations / jds replaced, removed, appended), judged against its "
+                      "current contents: ")
+        if v:
+            return v
+        if _reconverted_check(impl_obs):
+            v = _verdict1(al["reconverted"], raws[-1], "NetworkToEdgeList.convert called again on the same Network object after "
+                          "it was changed in place (edges removed / added, annotations re-assigned), judged against what the "
+                          "network holds now: ")
             if v:
                 return v
         # a result is a value: it is still what it was when it was returned
